@@ -1078,11 +1078,11 @@ func c19cachedAnswersAreAuthorised(c *an.Ctx) {
 	if f == nil {
 		return
 	}
+	// (execQuery / checkAuthorization are passed as statements; a database-level check of the user
+	// counts only on the edges on which it is known to have succeeded)
 	authz := an.Union(
 		f.Find(call(r, H+":Handler.execQuery")),
 		f.Find(call(r, H+":Handler.checkAuthorization")),
-		f.Find(an.MCallNamed("AuthorizeDatabase", `.*`)),
-		f.Find(an.MCallNamed("AuthorizeQuery", `.*`)),
 	)
 	wr := f.Find(an.MCallNamed("WritePromResponse", `.*`))
 	r.AddSites(authz.Len() + wr.Len())
@@ -1100,7 +1100,8 @@ func c19cachedAnswersAreAuthorised(c *an.Ctx) {
 			g.Precedes(r, ca, ex, an.OrderOpt{Success: true, Label: "checkAuthorization(success) ≺ ExecuteQuery"})
 		}
 	}
-	off := f.EdgesImplyingAny(an.AtomLike(`^recv\.Config\.AuthEnabled$`, false), an.AtomLike(`^nil==p2$`, true))
+	off := f.EdgesImplyingAny(an.AtomLike(`^recv\.Config\.AuthEnabled$`, false), an.AtomLike(`^nil==p2$`, true),
+		an.AtomLike(`^p2\.AuthorizeDatabase\(`, true))
 	// an authorisation call inside a condition guards its true/false edges: the vertex itself is the cut
 	for _, s := range wr.List {
 		if p := f.FPath([]int{f.G.Entry}, s.V, authz.Vs(), off); p != nil {
